@@ -90,6 +90,42 @@ def quoted : List Piece → List Char
   | .q c :: ps => c :: quoted ps
   | _ :: ps => quoted ps
 
+/-! ## quoted regions, specified directly on the text (independently of `scan`) -/
+
+inductive RMode where
+  | out
+  | inq (d : Char)
+  | comment
+  deriving DecidableEq, Repr
+
+/-- the quoted regions of a text in order: (opening delimiter, every character up to — not
+    including — the *matching* closing delimiter, or up to the end of the text if unterminated).
+    Other delimiter characters inside a region are ordinary content. -/
+def regionsGo : RMode → List Char → List Char → List (Char × List Char)
+  | .inq d, acc, [] => [(d, acc)]
+  | .out, _, [] => []
+  | .comment, _, [] => []
+  | .inq d, acc, c :: cs =>
+    if c = d then (d, acc) :: regionsGo .out [] cs else regionsGo (.inq d) (acc ++ [c]) cs
+  | .comment, _, c :: cs => if c = '\n' then regionsGo .out [] cs else regionsGo .comment [] cs
+  | .out, _, c :: cs =>
+    if isWs c then regionsGo .out [] cs
+    else if c = '-' ∧ cs.head? = some '-' then regionsGo .comment [] cs
+    else if isQuote c then regionsGo (.inq c) [] cs
+    else regionsGo .out [] cs
+
+def regions (s : List Char) : List (Char × List Char) := regionsGo .out [] s
+
+/-- the same regions read off the scanner's pieces -/
+def regionsP : Option Char → List Char → List Piece → List (Char × List Char)
+  | some d, acc, [] => [(d, acc)]
+  | none, _, [] => []
+  | some d, acc, .q c :: ps =>
+    if c = d then (d, acc) :: regionsP none [] ps else regionsP (some d) (acc ++ [c]) ps
+  | some d, acc, _ :: ps => regionsP (some d) acc ps
+  | none, _, .q c :: ps => regionsP (some c) [] ps
+  | none, _, _ :: ps => regionsP none [] ps
+
 /-! ## the normaliser before the repair -/
 
 def oldGo : Bool → Bool → List Char → List Char
